@@ -108,6 +108,27 @@ def wchoice(rng, weights):
 # ---------------------------------------------------------------- synth
 
 
+def _nested(rng, t):
+    """nested Python lists for V..V of a scalar type; returns (lists, base type)."""
+    if t[0] == "V":
+        subs = [_nested(rng, t[2]) for _ in range(t[1])]
+        base = subs[0][1] if subs else _base_of(t[2])
+        return [s[0] for s in subs], base
+    if t[0] == "F":
+        return sample_scalar(rng, t[1]), t
+    if t[0] == "B":
+        return rng.random() < 0.6, t
+    if t[0] == "I":
+        return sample_scalar(rng, "real"), t
+    raise ValueError(t)
+
+
+def _base_of(t):
+    while t[0] == "V":
+        t = t[2]
+    return t
+
+
 def lit(rng, t):
     """A literal expression of type t."""
     k = t[0]
@@ -123,21 +144,20 @@ def lit(rng, t):
         return ["tup", [lit(rng, s) for s in t[1]]]
     if k == "V":
         n, s = t[1], t[2]
-        if s[0] == "F":
-            return ["ca", [sample_scalar(rng, s[1]) for _ in range(n)]]
-        if s[0] == "B":
-            return ["cbv", [rng.random() < 0.6 for _ in range(n)]]
-        if s[0] == "I":
-            return ["iclip", ["ca", [sample_scalar(rng, "real") for _ in range(n)]], s[1]]
-        if s[0] == "T":
-            return ["tup", [lit(rng, V(n, u)) for u in s[1]]]
-        if s[0] == "N":
+        base = _base_of(s)
+        if base[0] == "T":
+            if s[0] == "T":
+                return ["tup", [lit(rng, V(n, u)) for u in s[1]]]
+            raise ValueError("no literal for %r" % (t,))
+        if base[0] == "N":
             return ["none"]
-        if s[0] == "V" and s[2][0] == "F":
-            return [
-                "ca",
-                [[sample_scalar(rng, s[2][1]) for _ in range(s[1])] for _ in range(n)],
-            ]
+        vals, base = _nested(rng, t)
+        if base[0] == "F":
+            return ["ca", vals]
+        if base[0] == "B":
+            return ["cbv", vals]
+        if base[0] == "I":
+            return ["iclip", ["ca", vals], base[1]]
     raise ValueError("no literal for %r" % (t,))
 
 
@@ -616,20 +636,55 @@ def features(node, under_switch=False, acc=None, rootish=True):
         sets = [frozenset(_index_sets(b)) for b in brs if _index_sets(b)]
         if len(set(sets)) > 1:
             acc.add("switch_len")
+        from sim.ref import universe as _uni
+
+        shapes = {}
+        for b in brs:
+            for a, leaf in _uni(b):
+                shp = leaf.get("n") if leaf["d"] == "normalv" else None
+                if a in shapes and shapes[a] != shp:
+                    acc.add("switch_shape_conflict")
+                shapes.setdefault(a, shp)
         under_switch = True
     if k == "static":
         styles = {len(s["addr"]) > 1 for s in node["stmts"]}
         if len(styles) > 1:
             acc.add("mixed_addr")
+    if k != "static":
+        # a closure hands back the wrapped function's trace (with the stored
+        # arguments in get_args()); only the root and static call sites unwrap it
+        for c in inner_nodes(node):
+            if c["k"] == "closure":
+                acc.add("closure_nested")
     for c in inner_nodes(node):
         features(c, under_switch, acc, rootish and k in ("vmap", "repeat"))
     return acc
 
 
+def cost(node):
+    """Rough tracing-cost model (eager GenJAX re-traces the whole program on every
+    operation; switch-like nodes under vector combinators are the expensive part)."""
+    from sim.ref import inner_nodes
+
+    k = node["k"]
+    if k == "dist":
+        return 1.0
+    cs = [cost(c) for c in inner_nodes(node)]
+    if k == "static":
+        return 1.0 + sum(cs)
+    if k in ("vmap", "repeat") or k in SCAN_LIKE:
+        return 2.0 + 2.0 * sum(cs)
+    if k in ("switch", "or_else", "mix"):
+        return 2.0 + 1.5 * sum(cs)
+    return 1.0 + sum(cs)
+
+
 def gen_program_filtered(rng, profile, allowed=()):
-    """Draw programs until one has no feature outside `allowed`."""
-    for _ in range(200):
+    """Draw programs until one has no feature outside `allowed` and fits the
+    tracing-cost budget of the profile."""
+    budget = profile.get("max_cost", 26.0)
+    for _ in range(400):
         node = gen_program(rng, profile)
-        if features(node) <= set(allowed):
+        if features(node) <= set(allowed) and cost(node) <= budget:
             return node
     raise RuntimeError("generator could not satisfy feature filter")
